@@ -280,12 +280,7 @@ func c06R3(c *Ctx) {
 		}
 		c.Require("C06.R3", key, cs.Fn, cs.Call, "!$v.InUse()", map[string]string{"$v": exprString(recv)})
 	}
-	// start-up: the cap adjustment in load runs after every stored binding was re-applied
-	if ld := p.Func(eniPkg, "Local.load"); ld != nil {
-		q := NewPathQuery(p, ld, nil)
-		w := q.Escapes(q.callTo(dispose), q.callTo(p.Method(eniPkg, "IP", "Allocate")), nil, nil)
-		c.Check(w == nil, "C06.R3", "load: no binding is re-applied after the idle-address disposal", p.Pos(ld.Decl), ld.Key(), "never-before: Dispose() before Allocate(podID) in load (an address would be judged idle before its stored owner is restored)", "path: "+p.describePath(w))
-	}
+	loadDisposeOrder(c, "C06.R3")
 	// Set.Idles returns only unowned
 	if fi := p.FuncOf(idles); fi != nil {
 		n := 0
@@ -544,4 +539,17 @@ func c06R5(c *Ctx) {
 		return true
 	})
 	c.Floor("C06.R5", "counted dispose loops in Local.Dispose", 2, n)
+}
+
+// loadDisposeOrder: start-up cap adjustment in load runs after every stored binding was re-applied.
+func loadDisposeOrder(c *Ctx, rule string) {
+	p := c.P
+	ld := p.Func(eniPkg, "Local.load")
+	if ld == nil {
+		c.Unres(rule, "Local.load", "not found")
+		return
+	}
+	q := NewPathQuery(p, ld, nil)
+	w := q.Escapes(q.callTo(p.Method(eniPkg, "IP", "Dispose")), q.callTo(p.Method(eniPkg, "IP", "Allocate")), nil, nil)
+	c.Check(w == nil, rule, "load: no binding is re-applied after the idle-address disposal", p.Pos(ld.Decl), ld.Key(), "never-before: Dispose() before Allocate(podID) in load (an address would be judged idle before its stored owner is restored)", "path: "+p.describePath(w))
 }
